@@ -451,6 +451,7 @@ extern void pxgstrf_SetIWork (int_t, int_t, int_t *, int_t **, int_t **, int_t *
 		      int_t **, int_t **, int_t **, int_t **);
 extern void pzgstrf_SetRWork (int_t, int_t, doublecomplex *, doublecomplex **, doublecomplex **);
 extern void pzgstrf_WorkFree (int_t *, doublecomplex *, GlobalLU_t *);
+extern void pzgstrf_WorkFreeAll (void);
 extern int_t  pzgstrf_MemXpand (int_t, int_t, MemType, int_t *, GlobalLU_t *);
 
 extern int_t  *intMalloc (int_t);
